@@ -276,7 +276,7 @@ def c10(tier):
         js.append(J("dest_r%d" % r, "C10_edges.c", ["-DDEST", "-DRES=%d" % r], unwind=r + 2, est=20 + 5 * r, tier=t, mem=("M" if r >= 9 else "S"), bound="all valid cells of res %d x directions" % r))
         if r <= 8 or r == 15:
             t = "quick" if r <= 2 else "thorough"
-            js.append(J("cells2edge_r%d" % r, "C10_edges.c", ["-DCELLS2EDGE", "-DRES=%d" % r], unwind=r + 2, est=60 + 20 * r, mem="M", tier=t, timeout=2400, bound="all neighbour pairs at res %d" % r))
+            js.append(J("cells2edge_r%d" % r, "C10_edges.c", ["-DCELLS2EDGE", "-DRES=%d" % r], unwind=r + 2, est=60 + 20 * r, mem=("L" if r > 8 else "M"), tier=t, timeout=2400, bound="all neighbour pairs at res %d" % r))
         if r <= 3:
             t = "quick" if r <= 1 else "thorough"
             js.append(J("anydest_r%d" % r, "C10_edges.c", ["-DANYDEST", "-DRES=%d" % r], unwind=r + 2, us={"harness.0": 8}, est=100 + 50 * r, mem="M", tier=t, timeout=2400, bound="all valid origins of res %d x all 2^64 destination words" % r))
@@ -370,7 +370,7 @@ def c15(tier):
     js = []
     js += with_witness(J("cross_reject_sound", "C15_cross.c", ["-DNVX=2", "-DGRID=4"], unwind=5, tier="thorough", core=False, us={"cellBoundaryCrossesGeoLoop.0": 5, "cellBoundaryCrossesGeoLoop.1": 5, "cellBoundaryCrossesGeoLoop.2": 5, "bboxFromGeoLoop.0": 5, "harness.0": 5, "harness.1": 5, "harness.2": 5, "harness.3": 5, "harness.4": 5, "harness.5": 5}, est=600, mem="M", timeout=3000,
                          stubs={"polygon": ["lineCrossesLine"]}, bound="one polygon segment x one cell-boundary segment (2-vertex loops), coordinates on a 2^-4 rad grid over the whole lat/lng range, boxes narrower than 3 rad (triangles / full doubles: no verdict in 1800 s)"))
-    js.append(J("cross_reject_sound_g3", "C15_cross.c", ["-DNVX=2", "-DGRID=3"], unwind=5, us={"cellBoundaryCrossesGeoLoop.0": 5, "cellBoundaryCrossesGeoLoop.1": 5, "cellBoundaryCrossesGeoLoop.2": 5, "bboxFromGeoLoop.0": 5, "harness.0": 5, "harness.1": 5, "harness.2": 5, "harness.3": 5, "harness.4": 5, "harness.5": 5}, est=200, mem="M", timeout=850, core=False,
+    js.append(J("cross_reject_sound_g3", "C15_cross.c", ["-DNVX=2", "-DGRID=3"], unwind=5, us={"cellBoundaryCrossesGeoLoop.0": 5, "cellBoundaryCrossesGeoLoop.1": 5, "cellBoundaryCrossesGeoLoop.2": 5, "bboxFromGeoLoop.0": 5, "harness.0": 5, "harness.1": 5, "harness.2": 5, "harness.3": 5, "harness.4": 5, "harness.5": 5}, est=200, mem="M", timeout=700, core=False,
                 stubs={"polygon": ["lineCrossesLine"]}, bound="one polygon segment x one cell-boundary segment, coordinates on a 2^-3 rad grid, boxes narrower than 3 rad"))
     js += with_witness(J("capacity_4", "C15_bound.c", ["-DNSEQ=4"], unwind=8, est=10, stubs={"polyfill": ["iterInitPolygon", "iterStepPolygon", "iterDestroyPolygon"]}, bound="sequences <= 4 cells"))
     js += [J("capacity_6", "C15_bound.c", ["-DNSEQ=6"], unwind=10, est=20, stubs={"polyfill": ["iterInitPolygon", "iterStepPolygon", "iterDestroyPolygon"]}, bound="sequences <= 6 cells")]
@@ -559,8 +559,8 @@ def c17(tier):
 # ------------------------------------------------------------------------------------------- C19
 @prop("C19",
       functions=["getIcosahedronFaces", "maxFaceCount", "makeDirectChild", "_h3ToFaceIjk", "_faceIjkToVerts", "_faceIjkPentToVerts", "_adjustOverageClassII", "_adjustPentVertOverage"],
-      bounds={"quick": "glue: any cell word, any vertex faces; vertex faces on the real code: all hexagons of res 0-1; end to end: res 0",
-              "thorough": "vertex faces res 0-2; end to end res 0-1"},
+      bounds={"quick": "glue: any cell word, any vertex faces; vertex faces on the real code: all hexagons of res 0-1",
+              "thorough": "vertex faces res 0-2 (end to end on symbolic cells: 30 GB, no verdict - dropped)"},
       outside="agreement with nearest-face of interior points in lat/lng; resolutions above 2 for the lattice components (coordinate arithmetic)",
       assumptions=["glue stubs return arbitrary faces 0-19; L-UP7 model in the component jobs"],
       stubs=["GLUE: isPentagon, _h3ToFaceIjk, _faceIjkToVerts, _faceIjkPentToVerts, _adjustOverageClassII, _adjustPentVertOverage"])
@@ -574,10 +574,7 @@ def c19(tier):
         t = "quick" if r <= 1 else "thorough"
         j = J("vertface_r%d" % r, "C19_faces.c", ["-DVERTFACE", "-DRES=%d" % r, "-DUPB=(1<<10)"], unwind=r + 2, unit_defs=UP7_DEFS, include_units=["faceijk"], est=100 + 200 * r, mem="M", tier=t, timeout=3000, bound="all hexagons of res %d x vertex pairs" % r)
         js += with_witness(j, tier=t) if r == 1 else [j]
-    for r in (0, 1):
-        t = "thorough"
-        j = J("e2e_r%d" % r, "C19_faces.c", ["-DE2E", "-DRES=%d" % r, "-DUPB=(1<<10)"], unwind=max(r + 3, 8), us={"getIcosahedronFaces.0": 7, "getIcosahedronFaces.1": 7, "getIcosahedronFaces.2": 7}, unit_defs=UP7_DEFS, est=600, mem="X", tier=t, timeout=3400, core=False, bound="all valid cells of res %d" % r)
-        js += with_witness(j, tier=t) if r == 0 else [j]
+    # end-to-end getIcosahedronFaces on symbolic cells (res 0/1) was probed: 30 GB, no verdict - not registered
     return js
 
 
